@@ -160,6 +160,19 @@ def build_corpus(tier, rng):
         for j, (i, _, tag) in enumerate(vals):
             for sp in specs[:6]:
                 c.add_q(k, "display", [j, i] + sp, note="placeholder")
+    # (round 15) generic enums: a type parameter that needs no trait (only in PhantomData, also next to the field a placeholder names;
+    # instantiated with a type that is not Display) and parameters with defaults
+    for it in G.bound_free_items(with_placeholder=True) + G.defaulted_param_items():
+        k = c.add_def(it, family="generic-shapes", derives=["Display"])
+        c.add_q(k, "struct", ["Display"], note="structure")
+        vals = [(i, ["Default::default()" for f in v.fields], "default") for i, v in enumerate(it.variants)]
+        vals += [(i, [RR.SAMPLE[f.ty][0] for f in v.fields], "sample") for i, v in enumerate(it.variants) if v.fields]
+        c.meta[k]["vals"] = vals
+        for j, (i, _, tag) in enumerate(vals):
+            if it.variants[i].has("disabled"):
+                continue
+            for sp in specs[:6]:
+                c.add_q(k, "display", [j, i] + sp, note="generic")
     return c
 
 
